@@ -37,13 +37,19 @@ def any_sym(args, kwargs=None):
 
 # --------------------------------------------------------------------------------------- bool
 class SxBool:
-    __slots__ = ("e",)
+    __slots__ = ("e", "ref")
 
-    def __init__(self, e):
+    def __init__(self, e, ref=None):
         self.e = e
+        self.ref = ref        # (z3 ast id of an integer term, op, constant): lets a taken branch
+                              # narrow the interval known for that term on the rest of the path
 
     def __bool__(self):
-        return C().decide(self.e)
+        c = C()
+        r = c.decide(self.e)
+        if self.ref is not None:
+            _refine(c, self.ref, r)
+        return r
 
     def __invert__(self):
         return SxBool(z3.Not(self.e))
@@ -78,14 +84,44 @@ def _b(x):
     raise Unsupported("not a boolean: %r" % (x,))
 
 
-def mkbool(e):
+def mkbool(e, ref=None):
     """z3 bool -> python bool when it simplifies to a constant, else SxBool"""
     e = z3.simplify(e)
     if z3.is_true(e):
         return True
     if z3.is_false(e):
         return False
-    return SxBool(e)
+    return SxBool(e, ref)
+
+
+_NEG = {"lt": "ge", "ge": "lt", "le": "gt", "gt": "le", "eq": "ne", "ne": "eq"}
+
+
+def _refine(c, ref, taken):
+    term, op, k = ref
+    tid = term.get_id()
+    if not taken:
+        op = _NEG[op]
+    d = c.env.setdefault("refined", {})
+    c.env.setdefault("refined_keep", []).append(term)     # pins the AST so its id is not reused
+    lo, hi = d.get(tid, (None, None))
+    if op == "lt":
+        hi = k - 1 if hi is None else min(hi, k - 1)
+    elif op == "le":
+        hi = k if hi is None else min(hi, k)
+    elif op == "gt":
+        lo = k + 1 if lo is None else max(lo, k + 1)
+    elif op == "ge":
+        lo = k if lo is None else max(lo, k)
+    elif op == "eq":
+        lo = k if lo is None else max(lo, k)
+        hi = k if hi is None else min(hi, k)
+    elif op == "ne":
+        if lo is not None and lo == k:
+            lo = k + 1
+        if hi is not None and hi == k:
+            hi = k - 1
+    d[tid] = (lo, hi)
 
 
 def z3bool(x):
@@ -117,10 +153,11 @@ def _ext(e, w, nonneg):
 
 
 class SxInt:
-    __slots__ = ("e", "lo", "hi", "w")
+    __slots__ = ("e", "lo", "hi", "w", "org")
 
     def __init__(self, e, lo=None, hi=None, w=None):
         self.e = e
+        self.org = None               # (x, byte index from LSB, length) when this is a byte of x.to_bytes()
         if w is None:
             w = e.size() if z3.is_bv(e) else 0
         self.w = w                    # bit-vector width; 0 = mathematical-integer flavour
@@ -182,6 +219,25 @@ class SxInt:
             a = a.to_int_mode()
         return a, b
 
+    def _tight(self):
+        """narrow [lo, hi] by what branch decisions on this path established for the same term"""
+        c = core.CTX
+        if c is None:
+            return
+        d = c.env.get("refined")
+        if not d:
+            return
+        r = d.get(self.e.get_id())
+        if r is None:
+            return
+        lo, hi = r
+        if lo is not None and (self.lo is None or lo > self.lo):
+            self.lo = lo
+        if hi is not None and (self.hi is None or hi < self.hi):
+            self.hi = hi
+        if self.lo is not None and self.hi is not None and self.lo > self.hi:
+            self.hi = self.lo      # infeasible region; the solver keeps the path honest
+
     def at(self, w):
         d = w - self.w
         if d == 0:
@@ -201,6 +257,8 @@ class SxInt:
         a, b = s._pair(o)
         if a is None:
             return NotImplemented
+        a._tight()
+        b._tight()
         if a.is_bv:
             lo, hi = a.lo + b.lo, a.hi + b.hi
             w = max(_fit(lo, hi), 1)
@@ -262,6 +320,7 @@ class SxInt:
             return NotImplemented
         if o <= 0:
             raise Unsupported("division by non-positive constant")
+        s._tight()
         if s.is_bv:
             if s.lo >= 0:
                 if s.hi < o:
@@ -344,6 +403,8 @@ class SxInt:
         a, b = s._pair(o)
         if a is None:
             return NotImplemented
+        a._tight()
+        b._tight()
         if a.lo is not None and a.hi is not None and b.lo is not None and b.hi is not None:
             if op == "lt":
                 if a.hi < b.lo: return True
@@ -370,7 +431,12 @@ class SxInt:
             x, y = a.e, b.e
         e = {"lt": lambda: x < y, "le": lambda: x <= y, "gt": lambda: x > y, "ge": lambda: x >= y,
              "eq": lambda: x == y, "ne": lambda: x != y}[op]()
-        return mkbool(e)
+        ref = None
+        if b.lo is not None and b.lo == b.hi:
+            ref = (a.e, op, b.lo)
+        elif a.lo is not None and a.lo == a.hi:
+            ref = (b.e, {"lt": "gt", "gt": "lt", "le": "ge", "ge": "le", "eq": "eq", "ne": "ne"}[op], a.lo)
+        return mkbool(e, ref)
 
     def __lt__(s, o): return s._cmp(o, "lt")
     def __le__(s, o): return s._cmp(o, "le")
@@ -499,6 +565,14 @@ class SxInt:
 
     def bit_length(s):
         a = s if bool(s >= 0) else -s
+        if a.is_bv:
+            # merged term: number of thresholds 2^k that a reaches (no fork per bit)
+            a._tight()
+            top = max(a.hi.bit_length(), 1)
+            r = 0
+            for k in range(top):
+                r = r + sym_ite(a >= (1 << k), 1, 0)
+            return r
         if bool(a == 0):
             return 0
         k = 1
@@ -534,6 +608,9 @@ class SxInt:
                 c.add(s.e == z3.Sum([v * (256 ** i) for i, v in enumerate(vs)]))
             bs = [SxInt(v, 0, 255) for v in vs]
         bs = [_small(b) for b in bs]
+        for i, b in enumerate(bs):
+            if isinstance(b, SxInt):
+                b.org = (s, i, length)
         if byteorder == "big":
             bs.reverse()
         elif byteorder != "little":
@@ -1257,3 +1334,57 @@ def str_of(x):
     if isinstance(x, SxChar):
         return SxStr([x])
     raise Unsupported("not text: %r" % type(x))
+
+
+def has_sym(x):
+    if is_sym(x):
+        return True
+    if isinstance(x, (tuple, list)):
+        return any(has_sym(v) for v in x)
+    return False
+
+
+def eq_term(a, b):
+    """z3 Bool / python bool: a == b, recursively through tuples/lists/dicts, without forking"""
+    if isinstance(a, (list, tuple)) and isinstance(b, (list, tuple)):
+        if len(a) != len(b):
+            return False
+        cs = [eq_term(x, y) for x, y in zip(a, b)]
+        if any(c is False for c in cs):
+            return False
+        cs = [z3bool(c) for c in cs if not isinstance(c, bool)]
+        return z3.And(*cs) if cs else True
+    if isinstance(a, dict) and isinstance(b, dict):
+        if any(has_sym(k) for k in list(a) + list(b)):
+            raise Unsupported("dict with symbolic keys in result comparison")
+        if set(a.keys()) != set(b.keys()):
+            return False
+        return eq_term([a[k] for k in a], [b[k] for k in a])
+    if isinstance(a, (SxBytes, SxStr, SxChar)) or isinstance(b, (SxBytes, SxStr, SxChar)):
+        if isinstance(a, (bytes, str)):
+            a, b = b, a
+        if isinstance(a, SxChar):
+            a = SxStr([a])
+        if isinstance(a, SxBytes) and not isinstance(b, (bytes, bytearray, SxBytes)):
+            return False
+        if isinstance(a, SxStr) and not isinstance(b, (str, SxStr, SxChar)):
+            return False
+        e = z3.simplify(a.eq_expr(b))
+        return True if z3.is_true(e) else False if z3.is_false(e) else e
+    if isinstance(a, (SxInt, SxBool)) or isinstance(b, (SxInt, SxBool)):
+        if isinstance(a, (bool, SxBool)) or isinstance(b, (bool, SxBool)):
+            if isinstance(a, (bool, SxBool)) and isinstance(b, (bool, SxBool)):
+                e = z3.simplify(z3bool(a) == z3bool(b))
+                return True if z3.is_true(e) else False if z3.is_false(e) else e
+            return False
+        if not isinstance(a, (int, SxInt)) or not isinstance(b, (int, SxInt)):
+            return False
+        r = (a == b)
+        return r if isinstance(r, bool) else r.e
+    if type(a) is not type(b) and not (isinstance(a, (int, float)) and isinstance(b, (int, float))):
+        if hasattr(a, "__eq__") and type(a).__eq__ is not object.__eq__ and not isinstance(a, (str, bytes, int, float)):
+            r = a == b
+            return r.e if isinstance(r, SxBool) else bool(r)
+        return False
+    r = (a == b)
+    return r.e if isinstance(r, SxBool) else bool(r)
